@@ -76,7 +76,7 @@ p3 = [m for m in pre if m.endswith(("p3", "p4"))]
 def first_caught(m):
     """caught by the OWN property's check at arrival"""
     import re
-    f = re.sub(r"^round \d( preserving)?: *", "", F.get(m, ""))
+    f = re.sub(r"^round \d+( preserving)?: *", "", F.get(m, ""))
     return f.startswith("caught")
 
 
